@@ -7,6 +7,7 @@ import (
 	"encoding/json"
 	"fmt"
 	"go/ast"
+	"go/build"
 	"go/parser"
 	"go/token"
 	"os"
@@ -18,6 +19,7 @@ import (
 	"github.com/dave/dst/decorator"
 	"github.com/dave/dst/decorator/resolver"
 	"github.com/dave/dst/decorator/resolver/goast"
+	"github.com/dave/dst/decorator/resolver/gobuild"
 	"github.com/dave/dst/decorator/resolver/guess"
 	"github.com/dave/dst/decorator/resolver/simple"
 	"github.com/dave/dst/vsched"
@@ -41,7 +43,37 @@ type c16Case struct {
 // "helpers": the threads use the package-level helpers decorator.Parse and decorator.Fprint.
 // "unshared+caching": every thread's restorer has a package-name resolver of its own that caches in a
 // plain map (legal: it is not shared); the library must not call it from several goroutines at once
-var c16ThreadScenarios = []string{"goast.New+guess", "goast.WithResolver(simple)+simple", "goast.New+guess.WithMap", "unshared", "unshared+vendored", "goast.New+guess+vendored", "unshared+caching", "helpers"}
+var c16ThreadScenarios = []string{"goast.New+guess", "goast.WithResolver(simple)+simple", "goast.New+guess.WithMap", "unshared", "unshared+vendored", "goast.New+guess+vendored", "unshared+caching", "helpers", "unshared+gobuild"}
+
+// "unshared+gobuild": every thread's restorer has a go/build-based package-name resolver of its own, rooted in a
+// directory of its own, without a build context (so the library falls back on the process-wide build.Default)
+// and with a FindPackage hook standing in for (*build.Context).Import: like go/build in module mode it looks the
+// package up from the context's Dir when that is set and from the directory it is handed otherwise, and the same
+// import path has another package name in every directory. The hook is a scheduling point.
+func c16GobuildRes(thread int) resolver.RestorerResolver {
+	return &gobuild.RestorerResolver{
+		Dir: fmt.Sprintf("/work/mod%d", thread),
+		FindPackage: func(ctxt *build.Context, importPath, fromDir string, mode build.ImportMode) (*build.Package, error) {
+			vsched.Yield("harness.findPackage")
+			dir := ctxt.Dir
+			if dir == "" {
+				dir = fromDir
+			}
+			name := importPath[strings.LastIndex(importPath, "/")+1:]
+			if strings.Contains(importPath, "/") {
+				name += "_" + dir[len(dir)-4:]
+			}
+			return &build.Package{Name: name}, nil
+		},
+	}
+}
+
+func c16RR(sc string, thread int, rr resolver.RestorerResolver) resolver.RestorerResolver {
+	if sc == "unshared+gobuild" {
+		return c16GobuildRes(thread)
+	}
+	return rr
+}
 
 // c16CachingRes is a stateful package-name resolver owned by one thread.
 type c16CachingRes struct {
@@ -331,7 +363,7 @@ func c16Resolvers(sc string) (shared func() resolver.DecoratorResolver, res reso
 		return func() resolver.DecoratorResolver { return g }, guess.WithMap(stdNames)
 	case "helpers":
 		return func() resolver.DecoratorResolver { return nil }, nil // decorator.Parse + decorator.Fprint (c16Body)
-	case "unshared+caching":
+	case "unshared+caching", "unshared+gobuild":
 		return func() resolver.DecoratorResolver { return goast.New() }, nil // restorer resolver made per thread (c16Body)
 	default: // unshared
 		return func() resolver.DecoratorResolver { return goast.New() }, guess.New()
@@ -408,7 +440,7 @@ func c16Discover() {
 		for i := 0; i < 3; i++ {
 			var r c16Result
 			vsched.ResetGlobals()
-			vsched.Go(func(int, bool) int { return 0 }, c16Body(c16Src(i, sc), mk(), rr, &r))
+			vsched.Go(func(int, bool) int { return 0 }, c16Body(c16Src(i, sc), mk(), c16RR(sc, i, rr), &r))
 		}
 	}
 	vsched.Discover = false
@@ -429,7 +461,7 @@ func c16Threads(cs c16Case, c *explore.Chooser) (core.Outcome, string) {
 	for i := range ref {
 		vsched.ResetGlobals()
 		// alone, but under the scheduler: goroutines the library starts by itself are threads too
-		alone := vsched.Go(func(int, bool) int { return 0 }, c16Body(c16Src(i, cs.Scenario), mkRef(), rrRef, &ref[i]))
+		alone := vsched.Go(func(int, bool) int { return 0 }, c16Body(c16Src(i, cs.Scenario), mkRef(), c16RR(cs.Scenario, i, rrRef), &ref[i]))
 		if len(alone.Races) > 0 {
 			sort.Strings(alone.Races)
 			return fail("data-race-within-one-call:"+raceName(alone.Races[0]), "thread %d's calls made alone: the library's own goroutines race (accesses unordered by happens-before): %s", i, strings.Join(alone.Races, "; "))
@@ -450,7 +482,7 @@ func c16Threads(cs c16Case, c *explore.Chooser) (core.Outcome, string) {
 	got := make([]c16Result, cs.Threads)
 	var bodies []func()
 	for i := range got {
-		bodies = append(bodies, c16Body(c16Src(i, cs.Scenario), mk(), rr, &got[i]))
+		bodies = append(bodies, c16Body(c16Src(i, cs.Scenario), mk(), c16RR(cs.Scenario, i, rr), &got[i]))
 	}
 	vsched.ResetGlobals()
 	run := vsched.Go(func(n int, free bool) int {
@@ -694,7 +726,7 @@ func C16RaceMain() int {
 				i := i
 				go func() {
 					var r c16Result
-					c16Body(srcs[i], mk(), rr, &r)()
+					c16Body(srcs[i], mk(), c16RR(sc, i, rr), &r)()
 					done <- r
 				}()
 			}
